@@ -219,7 +219,8 @@ ASSUME = ['uids are strings (all backends) or ints (Memory, Redis); an int and i
 
 
 def main(argv):
-    return run_check('C08', [StoreStream(), ObservableStream()], argv, trusted_base=TRUSTED, assumptions=ASSUME)
+    return run_check('C08', [StoreStream(), ObservableStream()], argv, trusted_base=TRUSTED, assumptions=ASSUME,
+                     translated=('memory',))
 
 
 if __name__ == '__main__':
